@@ -5,10 +5,16 @@
    vm/Remap.v (`xprogram` = a Bytecode with everything a renaming must preserve and the two
    run-time tables type_compatibility / canonical_tuples; the validator `is_renaming`; the models
    of value_to_instructions_from_cache and of value_to_instructions / inject_function_captures).
-   tree_shake (optimisation.rs) and merge_bytecode (environment.rs) are NOT modelled: each of their
-   outputs is checked by the extracted `is_renaming`, and the theorems below say what an accepted
-   pair guarantees. serde_json is not modelled: the JSON leg is validated field-wise only. *)
-From Quiver Require Import vm.Wf vm.Remap vm.RemapProofs vm.RemapWf vm.RemapInject.
+   tree_shake (optimisation.rs) and merge_bytecode (environment.rs) ARE modelled (vm/RemapShake.v,
+   vm/RemapMerge.v; every run compares the models' output with the real functions' output, exact
+   equality of the dumped Bytecode) and proved to produce renamings (second half of this file); in
+   addition each real output is still checked by the extracted `is_renaming`.
+   `is_renaming = struct_ok && rows_ok && canon_ok X && canon_ok X'`: the STRUCTURAL part is what a
+   packaging step produces and is what the model theorems establish; `rows_ok` concerns the
+   type_compatibility table every loader recomputes through is_compatible (C08/C09) and stays a
+   per-run validated premise. serde_json is not modelled: the JSON leg is validated field-wise only. *)
+From Quiver Require Import vm.Wf vm.Remap vm.RemapProofs vm.RemapWf vm.RemapInject
+  vm.RemapShake vm.RemapShakeProofs vm.RemapMerge vm.RemapMergeProofs.
 
 (* Lock-step simulation. For every function the renaming maps — every function reachable from the
    entry is (next theorem) — every argument, every captured environment and every sequence of outside
@@ -124,3 +130,110 @@ Theorem C10_inject_rebuilds_captures : forall bytes_of f c cs X X2 code,
       Next (at_pc (arg :: st) (lo ++ c :: cs) f' base 0 (length pre) rest pers).
 Proof. exact inject_rebuilds_captures. Qed.
 Print Assumptions C10_inject_rebuilds_captures.
+
+(* ====================================================================================================
+   tree_shake and merge_bytecode, modelled and proved
+   ==================================================================================================== *)
+
+(* the validator splits into the structural part and the run-time tables *)
+Theorem C10_is_renaming_split : forall rho X X', is_renaming rho X X' = true <->
+  struct_ok rho X X' = true /\ rows_ok rho X X' = true /\ canon_ok X = true /\ canon_ok X' = true.
+Proof. exact is_renaming_split. Qed.
+Print Assumptions C10_is_renaming_split.
+
+(* the structural part alone gives the lock-step simulation on vm/Vm.v (verdicts as outside inputs)
+   and covers everything reachable from the entry *)
+Theorem C10_struct_simulation_ext : forall rho X X', struct_ok rho X X' = true ->
+  (app (r_f rho) (x_entry X) = Some (x_entry X') /\
+   forall f, reachable X (x_entry X) f -> exists f', app (r_f rho) f = Some f') /\
+  forall s s' xs xs', srel rho s s' -> Forall2 (xrel rho) xs xs' ->
+    rrel rho (run (project X) s xs) (run (project X') s' xs').
+Proof. intros rho X X' H. split; [apply struct_covers_reachable; exact H | apply struct_simulation_ext; exact H]. Qed.
+Print Assumptions C10_struct_simulation_ext.
+
+(* TREE-SHAKE. For EVERY well-formed program (every id it mentions is in range, NIL and OK exist, the
+   entry exists) the model of optimisation.rs tree_shake does not panic, and its output is a
+   structural renaming of the input under the remap tables it computed. No validation involved. *)
+Theorem C10_tree_shake_struct : forall X, wf_program X = true ->
+  exists X', tree_shake X = Some X' /\ struct_ok (shake_rho X) X X' = true.
+Proof. exact tree_shake_struct. Qed.
+Print Assumptions C10_tree_shake_struct.
+
+(* ... hence every tree-shake preserves behaviour step for step (verdicts as outside inputs) *)
+Theorem C10_tree_shake_simulation : forall X, wf_program X = true ->
+  exists X', tree_shake X = Some X' /\
+  app (r_f (shake_rho X)) (x_entry X) = Some (x_entry X') /\
+  (forall f, reachable X (x_entry X) f -> exists f', app (r_f (shake_rho X)) f = Some f') /\
+  forall s s' xs xs', srel (shake_rho X) s s' -> Forall2 (xrel (shake_rho X)) xs xs' ->
+    rrel (shake_rho X) (run (project X) s xs) (run (project X') s' xs').
+Proof. exact tree_shake_simulation. Qed.
+Print Assumptions C10_tree_shake_simulation.
+
+(* ... and is a full renaming (so C10_renaming_simulation applies, verdicts computed from the
+   tables) as soon as the loader's type_compatibility rows commute — premise `rows_ok`, checked on
+   the real tables each run *)
+Theorem C10_tree_shake_is_renaming : forall X, wf_program X = true -> canon_ok X = true ->
+  exists X', tree_shake X = Some X' /\
+  forall R, rows_ok (shake_rho X) X (loaded X' R) = true ->
+            is_renaming (shake_rho X) X (loaded X' R) = true.
+Proof. exact tree_shake_is_renaming. Qed.
+Print Assumptions C10_tree_shake_is_renaming.
+
+(* MERGE. For ANY accumulated environment program E and any well-formed B: whenever the model of
+   merge_bytecode returns (None = a Rust panic or an id cycle between types and tuples), and under
+   the decidable premises `merge_premises` — Function operands point backwards, no Process
+   instruction, NIL/OK head the tuple tables, a builtin already known by name has the imported
+   signature, dedup identifies no two functions/builtins of B — the grown program is a structural
+   renaming of B under the remap tables merge computed. The premises are evaluated on every real
+   merge of every run; each is necessary (C10_merge_premises_needed). *)
+Theorem C10_merge_struct : forall E B E' rho, merge E B = Some (E', rho) -> wf_program B = true ->
+  merge_premises rho B E' = true -> struct_ok rho B E' = true.
+Proof. exact merge_struct. Qed.
+Print Assumptions C10_merge_struct.
+
+Theorem C10_merge_simulation : forall E B E' rho, merge E B = Some (E', rho) -> wf_program B = true ->
+  merge_premises rho B E' = true ->
+  app (r_f rho) (x_entry B) = Some (x_entry E') /\
+  (forall f, reachable B (x_entry B) f -> exists f', app (r_f rho) f = Some f') /\
+  forall s s' xs xs', srel rho s s' -> Forall2 (xrel rho) xs xs' ->
+    rrel rho (run (project B) s xs) (run (project E') s' xs').
+Proof. exact merge_simulation. Qed.
+Print Assumptions C10_merge_simulation.
+
+Theorem C10_merge_is_renaming : forall E B E' rho, merge E B = Some (E', rho) -> wf_program B = true ->
+  merge_premises rho B E' = true -> canon_ok B = true ->
+  forall R, rows_ok rho B (loaded E' R) = true -> is_renaming rho B (loaded E' R) = true.
+Proof. exact merge_is_renaming. Qed.
+Print Assumptions C10_merge_is_renaming.
+
+(* non-vacuity: a program with a dead function is shaken (2 of 3 functions, 1 of 2 constants kept);
+   its renaming is merged behind an environment that shares a constant, NIL, OK and a type with it;
+   merged behind itself everything deduplicates *)
+Theorem C10_models_nonvacuous :
+  wf_program Examples.exX = true /\
+  option_map (fun Y => (length (x_funcs Y), length (x_consts Y), x_entry Y)) (tree_shake Examples.exX) = Some (2, 1, 1) /\
+  match merge Examples.exM Examples.exX' with
+  | Some (E', rho) => wf_program Examples.exX' = true /\ merge_premises rho Examples.exX' E' = true /\
+                      r_f rho = [Some 2; Some 3] /\ r_t rho = [Some 0; Some 1; Some 4; Some 3]
+  | None => False
+  end.
+Proof. vm_compute. repeat split. Qed.
+Print Assumptions C10_models_nonvacuous.
+
+(* the premises of the merge theorem are needed: with a forward Function reference (replayed on the
+   real merge_bytecode: corpus/c10_json_witness.txt), with a builtin of a known name but another
+   signature, or with a Process instruction, the merge is NOT a renaming *)
+Theorem C10_merge_premises_needed :
+  (match merge Examples.exM MergeExamples.fwdB with
+   | Some (E', rho) => wf_program MergeExamples.fwdB = true /\ backward_refs MergeExamples.fwdB = false /\
+                       struct_ok rho MergeExamples.fwdB E' = false
+   | None => False end) /\
+  (match merge MergeExamples.bE MergeExamples.bB with
+   | Some (E', rho) => wf_program MergeExamples.bB = true /\ struct_ok rho MergeExamples.bB E' = false
+   | None => False end) /\
+  (match merge Examples.exM MergeExamples.pB with
+   | Some (E', rho) => wf_program MergeExamples.pB = true /\ no_process MergeExamples.pB = false /\
+                       struct_ok rho MergeExamples.pB E' = false
+   | None => False end).
+Proof. vm_compute. repeat split. Qed.
+Print Assumptions C10_merge_premises_needed.
